@@ -39,6 +39,10 @@ MoveLines(e) == {i \in DOMAIN e.lines : MoveLine(e.lines[i].ws)}
 \* tolerance in SC-scaled trace units: exact on the integer sub-group, otherwise one unit
 \* (half a unit of output rounding + quantisation of the observed matrix)
 TolS(M) == IF M.exact THEN 0 ELSE M.SC + M.SC \div 2
+\* ... plus, per image coordinate i, the recorder's quantisation of the builder-side coordinates (half a unit each)
+\* amplified by the map: sum_j |a_ij| / 2
+RowGain(xf, i) == (AbsV(xf.a[i][1]) + AbsV(xf.a[i][2]) + AbsV(xf.a[i][3])) \div 2 + 1
+TolRow(M, xf, i) == IF M.exact THEN 0 ELSE TolS(M) + RowGain(xf, i)
 
 C04_Ante(e, p, M) == e.call \in XMoveCalls /\ e.out = "ok" /\ M.xf
 \* every axis word carries the image of the target / the linear image of the displacement
@@ -48,15 +52,15 @@ C04_Words(e, p, M) ==
     /\ \A li \in MoveLines(e) :
          LET ws == e.lines[li].ws IN
          \A ax \in AxisSet : HasW(ws, ax) =>
-            IF p.rel THEN AbsV(M.SC * ValW(ws, ax) - LinS(e.xf, Disp(e, p), AxI[ax])) <= TolS(M)
-                     ELSE AbsV(M.SC * ValW(ws, ax) - ImgS(M, e.xf, Target(e, p), AxI[ax])) <= TolS(M)
+            IF p.rel THEN AbsV(M.SC * ValW(ws, ax) - LinS(e.xf, Disp(e, p), AxI[ax])) <= TolRow(M, e.xf, AxI[ax])
+                     ELSE AbsV(M.SC * ValW(ws, ax) - ImgS(M, e.xf, Target(e, p), AxI[ax])) <= TolRow(M, e.xf, AxI[ax])
 \* every axis whose machine coordinate has to change (by a unit or more) is mentioned
 C04_Mentions(e, p, M) ==
   C04_Ante(e, p, M) =>
     \A li \in MoveLines(e) :
        LET ws == e.lines[li].ws IN
        \A ax \in AxisSet :
-          AbsV(LinS(e.xf, Disp(e, p), AxI[ax])) >= M.SC + TolS(M) => HasW(ws, ax)
+          AbsV(LinS(e.xf, Disp(e, p), AxI[ax])) >= M.SC + TolRow(M, e.xf, AxI[ax]) => HasW(ws, ax)
 \* absolute-bypass moves are not transformed
 C04_Bypass(e, p, M) ==
   (e.call \in XBypassCalls /\ e.out = "ok") =>
@@ -70,7 +74,7 @@ C04_Bypass(e, p, M) ==
 Agree(xf, rep, m, M) ==
   \A ax \in AxisSet : m.known[ax] =>
      AbsV(M.SC * m.pos[ax] - ImgS(M, xf, <<PV(rep.pos[1]), PV(rep.pos[2]), PV(rep.pos[3])>>, AxI[ax]))
-        <= (IF M.exact THEN 0 ELSE (m.slack[ax] + 2) * (M.SC \div 2) + M.SC \div 2)
+        <= (IF M.exact THEN 0 ELSE (m.slack[ax] + 2) * (M.SC \div 2) + M.SC \div 2 + RowGain(xf, AxI[ax]))
 C04_Keeps(e, p, m, m2, M, agreed) ==
   \* (a probe leaves the probed axes unknown on both sides; nothing is claimed across it)
   (agreed /\ e.call \in {"move", "rapid"} /\ e.out = "ok" /\ M.xf) => Agree(e.xf, e.rep, m2, M)
